@@ -25,6 +25,35 @@ def c15_classify(c, i):
     return out
 
 
+def _k8s_items(c):
+    """kinds of the items of a c15.k8s case: list of 'T' | 'A' | 'N' | 'S'"""
+    kinds, j = [], 6
+    n = int(c[5])
+    for _ in range(n):
+        if c[j] == "T":
+            kinds.append("T"); j += 2
+        else:
+            kinds.append(c[j + 3]); j += 6
+    return kinds
+
+
+def sig_k8s_abandon(c, i, m, rec):
+    """k8s multiline, no size limit: the implementation behaves exactly as modelled (impl == model,
+    which the theorems equate with the line-grouping spec) and the only thing wrong is that the
+    chunks buffered for an unfinished line vanish when a time-out (or an event without a string
+    `log`) interrupts the line."""
+    if not c or c[0] != "c15.k8s" or c[2] != "0" or i != m:
+        return False
+    kinds = _k8s_items(c)
+    seen_chunk = False
+    for k in kinds:
+        if k == "S":
+            seen_chunk = True
+        elif seen_chunk:
+            return True
+    return False
+
+
 CFG = {
     "manifest": {
         "text": "Proof: Lean theorems (Props/C15.lean) state that the model of join.Plugin.Do/flush (and of the join_template closures, and of the k8s MultilineAction chunk buffer) turns every per-stream call sequence into exactly what the run-grouping spec says; the models are tied to the real plugins (registry factory + Start + Do, mock controller recording Propagate) by differential runs on exhaustive small call sequences and random ones on every run.",
@@ -43,6 +72,6 @@ CFG = {
         "time-out events reach an instance only while it is busy (processor.processEvent: blockGet only runs while busyActionsTotal > 0)",
         "while an instance is busy the next call is an event or time-out of the same stream (C02/C04 single_owner + blockGet); hypothesis `coherent` of no_cross_stream_merge",
     ],
-    "signatures": {},
+    "signatures": {"k8s_abandon": sig_k8s_abandon},
     "chunk": 4000,
 }
